@@ -5,7 +5,7 @@ import z3
 from .common import *
 from .trees import *
 from scheme.reader import read_all, ReadError
-from scheme.eval import FileRec, run_program, RuntimeErr, Machine
+from scheme.eval import FileRec, run_program, RuntimeErr, Machine, num, NW, DIVDEFS, reset_divdefs
 from spec import findsem
 
 
@@ -24,18 +24,14 @@ def val_eq(a, b):
             return False
         tag = a[0] if a else None
         if tag in ("int", "bv"):
-            x = z3.BV2Int(a[1]) if a[0] == "bv" else a[1]
-            y = z3.BV2Int(b[1]) if b[0] == "bv" else b[1]
-            x = z3.IntVal(x) if isinstance(x, int) else x
-            y = z3.IntVal(y) if isinstance(y, int) else y
-            return x == y
+            return num(a[1]) == num(b[1])
         if tag == "ratio":
-            return z3.And(a[1] == b[1], a[2] == b[2])
+            return z3.And(num(a[1]) == num(b[1]), num(a[2]) == num(b[2]))
         if tag == "arg":
             return b_and(a[1] == b[1], val_eq(a[2], b[2]))
         if tag == "chr":
             x, y = a[1], b[1]
-            return x == y if not (is_sym(x) or is_sym(y)) else (z3.BV2Int(x) if is_sym(x) and z3.is_bv(x) else x) == (z3.BV2Int(y) if is_sym(y) and z3.is_bv(y) else y)
+            return x == y if not (is_sym(x) or is_sym(y)) else num(x) == num(y)
         return b_and(*[val_eq(x, y) for x, y in zip(a, b)])
     if is_sym(a) or is_sym(b):
         return a == b
@@ -52,7 +48,7 @@ def items_eq(a, b):
     for x, y in zip(a, b):
         if isinstance(y, tuple) and y and y[0] == "chr" and not isinstance(x, tuple):
             n = y[1]
-            acc = b_and(acc, (x == n) if not is_sym(n) else (z3.BV2Int(n) == x if z3.is_bv(n) else n == x))
+            acc = b_and(acc, (x == n) if not (is_sym(n) or is_sym(x)) else num(n) == num(x))
         else:
             acc = b_and(acc, val_eq(x, y) if isinstance(x, tuple) or isinstance(y, tuple) else x == y)
         if acc is False:
@@ -137,20 +133,21 @@ def compare(B, label, tree, sexpr, assume_extra=(), opts=None, want_modes=True, 
         if not findsem.has_action(tree):
             meaning = Adt("Expression", "Operator", [BoxV(Adt("Operator", "And", [tree, Adt("Expression", "Action", [Adt("Action", "DefaultPrint")])]), "Rc")])
     r = compile_tree(B, tree, opts)
-    for g, v in r.alts:
-        if isinstance(v, Panic):
-            findings.append(dict(klass="compile-panic", text="compile panics: %s" % v.msg, guard=g))
-            return findings, None
+    panic_g = b_or(*[g for g, v in r.alts if isinstance(v, Panic)])
     oks = [(g, v) for g, v in r.alts if is_ok(v)]
     if not oks:
-        return findings, dict(compiled=False, run=r)
-    info = dict(compiled=True, run=r, programs=0)
+        return findings, dict(compiled=False, run=r, panic=panic_g)
+    info = dict(compiled=True, run=r, programs=0, panic=panic_g)
+    # C02 speaks about expressions that compile: inputs on which compile panics are excluded here (C03/C07)
+    assume_extra = list(assume_extra) + ([b_not(panic_g)] if panic_g is not False else [])
     for g, v in oks:
         for g2, ce in flatten_value(v.fields[0]):
             gg = b_and(g, g2)
             items = render(B, r, ce)
+            reset_divdefs()
             frec = FileRec("f")
-            clock = z3.Int("clock")
+            clock_raw = z3.BitVec("clock", 64)
+            clock = num(clock_raw)
             try:
                 M, tv, data = run_program(items, frec)
             except (ReadError, RuntimeErr) as e:
@@ -159,7 +156,8 @@ def compare(B, label, tree, sexpr, assume_extra=(), opts=None, want_modes=True, 
             info["programs"] += 1
             info["machine"] = M
             info["text"] = rope_text(items)
-            sem = findsem.Sem(frec, clock)
+            reads = list(r.I.clock_reads)
+            sem = findsem.Sem(frec, [num(t) for t in reads] if reads else clock)
             try:
                 spec_tv = sem.eval(meaning if meaning is not None else tree, True)
             except findsem.Unsupported as e:
@@ -170,12 +168,12 @@ def compare(B, label, tree, sexpr, assume_extra=(), opts=None, want_modes=True, 
                 findings.append(dict(klass="routing", text=what, guard=b_and(gg, e["guard"])))
             # the clock embedded in the program is the compile-time clock; files are not from the future
             A = list(frec.constraints()) + list(assume_extra)
-            for t in r.I.clock_reads:
-                A.append(clock == z3.BV2Int(t))
-            for a in ("atime", "ctime", "mtime"):
-                A.append(frec.ints[a] <= clock)
+            for t in reads or [clock_raw]:
+                for a in ("atime", "ctime", "mtime"):
+                    A.append(z3.ULE(frec.raw[a], t))
             A.append(b_not(sem.undefined) if sem.undefined is not False else True)
             A.append(gg)
+            A.extend(DIVDEFS)          # definitions of the quotient variables (division lemma)
             info["assume"] = A
             checks = [("runtime-error", M.err), ("truth-value", z3.Xor(zb(tv), zb(spec_tv))), ("stop-request", z3.Xor(zb(M.stop), zb(sem.stop)))]
             # outputs: align the two ordered lists after dropping events that can never fire
@@ -205,7 +203,7 @@ def compare(B, label, tree, sexpr, assume_extra=(), opts=None, want_modes=True, 
             for cname, bad in checks:
                 if bad is False:
                     continue
-                res, m = B.solve("%s:%s" % (label, cname), A, bad)
+                res, m = B.solve("%s:%s" % (label, cname), A, bad, timeout_ms=120000)
                 if res == z3.sat:
                     findings.append(dict(klass=cname.split("[")[0].split("(")[0], text="%s differs (%s)" % (cname, model_file(m, frec, clock)), guard=gg, model=m,
                                          detail=dict(impl=[show_out(o) for o in io], spec=[show_out(o) for o in so])))
@@ -221,14 +219,14 @@ def show_out(o):
 
 def model_file(m, frec, clock):
     parts = []
-    for k, v in list(frec.ints.items())[:10]:
+    for k, v in list(frec.raw.items())[:10]:
         val = m.eval(v, model_completion=False)
-        if z3.is_int_value(val):
-            parts.append("%s=%s" % (k, val))
+        if z3.is_bv_value(val):
+            parts.append("%s=%s" % (k, val.as_long()))
     mv = m.eval(frec.mode, model_completion=False)
     if z3.is_bv_value(mv):
         parts.append("mode=%o" % mv.as_long())
     cv = m.eval(clock, model_completion=False)
-    if z3.is_int_value(cv):
-        parts.append("clock=%s" % cv)
+    if z3.is_bv_value(cv):
+        parts.append("clock=%s" % cv.as_long())
     return "file: " + " ".join(parts)
